@@ -25,7 +25,7 @@ type c10Case struct {
 func init() {
 	engine.Register(&engine.Check{
 		ID: "C10", Level: "exploration",
-		Rule:        "(a) every ordered triple of points of the 5x5 (quick) / 7x7 (thorough) integer grid, also scaled by 2^330 and 2^-330 and translated by 2^40; (b) for each of 24 exactly collinear base triples with non-trivial mantissas (slopes 1, 1/3, 7/5, -2/9, magnitudes 1e-100..1e100) every perturbation of the six ordinates by {-2..2} (quick) / {-3..3} (thorough) ulps; (c) every triple over the 27-bit coordinate set {0,1,2^26,2^27-1,2^27-3}^2; extra ordinates NaN/Inf; oracle = sign of the exact rational cross product for bigxy.OrientationIndex and xy.OrientationIndex, plus antisymmetry and cyclic invariance. distinct_nontrivial = distinct triples whose exact determinant is non-zero or whose points are pairwise distinct Also: Fibonacci/Pell lattice points up to 2^51 around three origins (cross product +-1 with exact integer ordinates), and points of magnitudes 2^-330..2^330 on one line through the origin with single ordinates 1 or 3 ulps off; every triple over {0,1e-100,3e-50,1,2,3,1e100}^2 (one axis spanning 660 binary orders, the other narrow) and its mirror image.",
+		Rule:        "(a) every ordered triple of points of the 7x7 (quick) / 9x9 (thorough) integer grid, also scaled by 2^330 and 2^-330 and translated by 2^40; (b) for each of 24 exactly collinear base triples with non-trivial mantissas (slopes 1, 1/3, 7/5, -2/9, magnitudes 1e-100..1e100) every perturbation of the six ordinates by {-2..2} (quick) / {-3..3} (thorough) ulps; (c) every triple over the 27-bit coordinate set {0,1,2^26,2^27-1,2^27-3}^2; extra ordinates NaN/Inf; oracle = sign of the exact rational cross product for bigxy.OrientationIndex and xy.OrientationIndex, plus antisymmetry and cyclic invariance. distinct_nontrivial = distinct triples whose exact determinant is non-zero or whose points are pairwise distinct Also: Fibonacci/Pell lattice points up to 2^51 around three origins (cross product +-1 with exact integer ordinates), and points of magnitudes 2^-330..2^330 on one line through the origin with single ordinates 1 or 3 ulps off; every triple over {0,1e-100,3e-50,1,2,3,1e100}^2 (one axis spanning 660 binary orders, the other narrow) and its mirror image.",
 		Run:         c10Run,
 		Replay:      func(c *engine.Ctx, kind string, raw json.RawMessage) { c10Exec(c, decodeCase[c10Case](raw)) },
 		Assumptions: []string{"math/big rationals are exact; ordinates are zero or of magnitude within [1e-100,1e100]"},
@@ -149,10 +149,10 @@ func cfSequences() [][]float64 {
 }
 
 func c10Run(c *engine.Ctx) {
-	n := 5
+	n := 7
 	pert := []int{-2, -1, 0, 1, 2}
 	if c.Thorough() {
-		n = 7
+		n = 9
 		pert = []int{-3, -2, -1, 0, 1, 2, 3}
 	}
 	var grid [][2]float64
